@@ -258,7 +258,10 @@ func (t *FSTree) readHeader(id oid.ID, f *os.File, buf []byte) ([]byte, io.ReadS
 			}
 			n = copy(buf, buf[min(offset, n):n])
 			offset = 0
-			k, err := io.ReadFull(f, buf[n:n+objectwire.NonPayloadFieldsBufferLength])
+			// Keep the buffered window within NonPayloadFieldsBufferLength bytes:
+			// the found object may need that many bytes more after any offset of
+			// the window, and buf is only guaranteed to be twice as long.
+			k, err := io.ReadFull(f, buf[n:objectwire.NonPayloadFieldsBufferLength])
 			if err != nil && !errors.Is(err, io.EOF) && !errors.Is(err, io.ErrUnexpectedEOF) {
 				return nil, f, fmt.Errorf("read full: %w", err)
 			}
